@@ -579,6 +579,10 @@ Proof.
 Qed.
 
 (* ------------------------------------------------------------------------------------------ CRL revoked entries *)
+Lemma wrap_sub ilen d : d <= ilen -> ilen < two32 ->
+  (ilen + two32 - d mod two32) mod two32 = ilen - d.
+Proof. unfold two32. intros. lia. Qed.
+
 Lemma getSerialNum_spec buf c len :
   holds buf (c + len) ->
   post (fun r => c + 1 < snd r /\ snd r <= c + len) (getSerialNum buf c len).
@@ -613,17 +617,22 @@ Proof.
   pstep. pstep. u32.
   eapply post_weaken; [apply getAsnLength_spec; eapply holds_le; eauto; lia|].
   intros [timelen p3] (C1 & C2 & C3 & C4).
-  pstep; [pstep|]. b2p. u32.
+  clear M.
+  assert (U1 : u32sub endp p3 = endp - p3) by (apply u32sub_small; lia).
+  assert (U2 : u32sub p3 p1 = p3 - p1) by (apply u32sub_small; lia).
+  rewrite U1, U2.
+  pstep; [pstep|]. b2p.
   pstep. pstep; [lia|].
   pstep; [pstep|].
-  pstep; [pstep|]. cbn [andb] in *. b2p. u32.
+  pstep; [pstep|]. cbn [andb] in *. b2p.
   pstep.
-  assert (E : (ilen + two32 - (p3 - p1) mod two32) mod two32 = ilen - (p3 - p1)).
-  { unfold two32 in *. rewrite (N.mod_small (p3 - p1)) by lia.
-    replace (ilen + 4294967296 - (p3 - p1)) with (ilen - (p3 - p1) + 1 * 4294967296) by lia.
-    rewrite N.mod_add by discriminate. apply N.mod_small. lia. }
-  rewrite u32sub_small by lia. rewrite E. rewrite u32sub_small by lia.
-  splits; lia.
+  assert (E : (ilen + two32 - (p3 - p1) mod two32) mod two32 = ilen - (p3 - p1)) by (apply wrap_sub; lia).
+  rewrite E.
+  repeat match goal with H : time_import _ _ = _ |- _ => clear H | H : nth_error _ _ = _ |- _ => clear H | H : lenN _ = _ |- _ => clear H end.
+  clear E U1 U2 S5 H1.
+  assert (B2' : p2 <= p1 + ilen) by (pose proof (mod16_le ilen); lia). clear B2.
+  assert (U3 : u32sub (p3 + (ilen - (p3 - p1))) p = p3 + (ilen - (p3 - p1)) - p) by (apply u32sub_small; unfold two32 in *; lia).
+  rewrite U3. unfold two16, two32 in *. splits; lia.
 Qed.
 
 Lemma crl_entries_spec fuel : forall buf endp p glen acc,
